@@ -72,6 +72,8 @@ def to_scenario(hist, sid, stable):
 
 
 def run(prop, tier, replay):
+    if replay:
+        return Q.replay(prop, replay, {"RetainedReadable", "OnlyPolicyManifests", "LatestUnreadable", "ScanEqualsModel"}, trace_module="Trace_LanceTable")
     t0 = time.time()
     out = vlib.Outcome(prop)
     rnd = random.Random(vlib.seed())
